@@ -657,3 +657,10 @@ def replay(ctx, data):
     trig = bytes.fromhex(w["trig"]) if w.get("trig") else None
     r, dec, enc = O.c03_eval(c, L[c.name], bytes.fromhex(w["pdu"]), trig)
     return r is None
+
+
+# W22 (RESERVED / NRC-CONST as constructors: Desc2R) — appended
+LEAN_TARGETS = LEAN_TARGETS + ['OdxVerif.Props.C03Nested2R']
+THEOREMS = THEOREMS + ["OdxVerif.Codec." + t for t in ['C03_reencode_nested2R', 'C03_encoded_is_canonical2R', 'descs2R_reencode_pure',
+                                                        'C03_reserved_nonzero_not_reproduced', 'C03_nrcconst_decoded_not_reencodable',
+                                                        'exRes_canon', 'exRes_disj']]
